@@ -302,7 +302,7 @@ def gen_history(rng, cfg, pool, text, nops, weights=None, allow_uncrawled_pages=
                 ts = [x for x in ts if rules_ok(x)]
                 seen_targets += ts
                 data.append([s, ts])
-            ops.append({"op": "batch", "data": data, "yf": rng.choice([1, 2, 50])})
+            ops.append({"op": "batch", "data": data, "yf": rng.choice([1, 2, 50]), "as_str": astr([x for s_, ts in data for x in [s_] + ts])})
             m.batch(data)
         elif k == "create":
             ps = []
@@ -322,7 +322,7 @@ def gen_history(rng, cfg, pool, text, nops, weights=None, allow_uncrawled_pages=
                 if of not in ps:
                     ps.append(of)
             rng.shuffle(ps)
-            ops.append({"op": "delete", "of": of, "prefixes": ps})
+            ops.append({"op": "delete", "of": of, "prefixes": ps, "unchecked": rng.random() < 0.2})
             for p in ps:
                 del m.we[p]
         elif k == "addp" and m.we:
@@ -339,7 +339,7 @@ def gen_history(rng, cfg, pool, text, nops, weights=None, allow_uncrawled_pages=
         elif k == "mvp" and len(m.we) > 0:
             p = rng.choice(sorted(m.we))
             of = rng.choice(sorted(m.we))
-            ops.append({"op": "mvp", "prefix": p, "of": of, "with_src": rng.random() < 0.7})
+            ops.append({"op": "mvp", "prefix": p, "of": of, "with_src": rng.random() < 0.7, "alias": rng.random() < 0.3})
             m.we[p] = m.we[of]
         elif k == "rule":
             a = some_prefix(rng, pick(), 2, 4)
